@@ -66,6 +66,7 @@ OUTSIDE = ["num_workers > 3, queue > 2, more than two steps", "DBOS runtime repl
 
 QMAX = B(1, 2)
 TS = B(3, 6)   # timestamp / clock range of the cheap obligations
+TSF = B(2, 4)  # ... of the failure result (its elapsed time is realised at the pydantic boundary: one path per value)
 
 
 # ----------------------------------------------------------------------------------------------- canonical form
@@ -153,6 +154,7 @@ def ob_replay_step_result(nw: int, b0: bool, b1: bool, b2: bool, q: int, wid: in
     pre: 0 <= kind <= 8 and 0 <= pol <= 4 and 1 <= n <= 3 and 0 <= d <= 4 and 0 <= att <= 2 and 0 <= snap <= live <= 1
     pre: 0 <= t1 <= 6 and 0 <= t2 <= 6 and t1 <= fa <= now1 <= 6 and 0 <= now2 <= 6
     pre: kind == 2 or (pol == 0 and n == 1 and d == 0)
+    pre: kind != 2 or (t1 <= TSF and t2 <= TSF and now1 <= TSF and now2 <= TSF and d <= TSF and n <= 2 and q <= 1)
     pre: att == 0 or t1 == t2
     post: _
     """
